@@ -403,6 +403,7 @@ func (s *session) run(o runOpts) int {
 		it.mstate.observe = nil
 		it.mstate.observeVals = nil
 		it.mstate.lastNow = nil
+		it.mstate.manualClock = false
 		it.mstate.universe = nil
 		it.mstate.fakeDigests = 0
 		it.curFrame = nil
